@@ -16,6 +16,7 @@ import (
 	"net/http/httptest"
 	"net/url"
 	"os"
+	"runtime"
 	"strings"
 	"sync"
 	"testing"
@@ -169,6 +170,64 @@ func TestVerifHTTPProxyRoundTrip(t *testing.T) {
 					rec.Violation("C12", "httpproxy.get-differs", fmt.Sprintf("%s: Get returned %d bytes (err %v), want %d", sig, len(got), rerr, len(stored)), nil)
 				}
 			}
+		}
+	}
+}
+
+// C14 (resources) at the HTTP back-end client: a local miss that the back end answers with "not
+// found" (or with an error status) ends the exchange: the client must not keep one connection and
+// its two goroutines per such answer.
+func TestVerifHTTPProxyMissKeepsNoConnection(t *testing.T) {
+	rec := vNewRecorder(t, "httpleak")
+	defer rec.Close(t)
+	rec.Set("rule", "60 Get calls for absent entries against a back end answering 404 with a body, 60 against one answering 500 with a body, CAS/AC in both modes: afterwards at most a handful of client connections (the idle pool) may be alive")
+	for _, mode := range []string{"zstd", "uncompressed"} {
+		for _, status := range []int{404, 500} {
+			rec.Case()
+			srv := httptest.NewServer(http.HandlerFunc(func(w http.ResponseWriter, r *http.Request) {
+				http.Error(w, "no such object, and here is a body saying so at some length ....................", status)
+			}))
+			u, _ := url.Parse(srv.URL)
+			tr := &http.Transport{}
+			px, err := New(u, mode, &http.Client{Transport: tr}, log.New(io.Discard, "", 0), log.New(io.Discard, "", 0), 1, 10)
+			if err != nil {
+				t.Fatal(err)
+			}
+			count := func() int {
+				buf := make([]byte, 4<<20)
+				buf = buf[:runtime.Stack(buf, true)]
+				return strings.Count(string(buf), "net/http.(*persistConn).readLoop")
+			}
+			before := count()
+			for i := 0; i < 60; i++ {
+				kind := cache.CAS
+				if i%2 == 1 {
+					kind = cache.AC
+				}
+				sum := sha256.Sum256([]byte(fmt.Sprintf("absent-%s-%d-%d", mode, status, i)))
+				rc, _, _ := px.Get(context.Background(), kind, hex.EncodeToString(sum[:]), -1)
+				if rc != nil {
+					_ = rc.Close()
+					rec.Violation("C12", "httpleak.hit", fmt.Sprintf("Get of an absent entry returned a reader (status %d)", status), nil)
+				}
+			}
+			alive := 0
+			for w := 0; w < 100; w++ { // connections being torn down need a moment
+				alive = count() - before
+				if alive <= 4 {
+					break
+				}
+				time.Sleep(10 * time.Millisecond)
+			}
+			rec.Note(fmt.Sprintf("mode=%s status=%d: %d client connections alive after 60 misses", mode, status, alive))
+			rec.Count(fmt.Sprintf("alive<=4=%v", alive <= 4))
+			rec.Distinct(fmt.Sprintf("%s:%d", mode, status))
+			if alive > 4 {
+				rec.Violation("C14", "httpleak.connections", fmt.Sprintf("mode=%s: after 60 Get calls that the back end answered with %d, %d client connections (each with its read and write goroutine) are still alive: the response bodies were never closed", mode, status, alive), map[string]interface{}{"mode": mode, "status": status})
+			}
+			tr.CloseIdleConnections()
+			srv.CloseClientConnections()
+			srv.Close()
 		}
 	}
 }
